@@ -298,6 +298,39 @@ func ruleC11Refuse(rule string) ruleFn {
 			}
 			c.Guard(rule, fn, ri, "RemoveIndex", nil, atom("disk is in the live chain", "+"+idx+" -1 >=0"), atom("exactly one child", "-len($0.diskChildrenMap[$1]) +1 >=0"))
 		}
+		// removeDiskNode: "the removed disk was the latest snapshot" (len(activeDiskData)-2 == index)
+		// is decided on the list as it was when the index was looked up: before the splice; on that
+		// edge info.Parent moves to the head's new parent
+		if fn := c.P.Fn(fRep + "removeDiskNode"); fn != nil {
+			R := NewRenderer(fn)
+			idx := fRep + "findDisk($0,$1)"
+			latest := "+" + idx + " -len($0.activeDiskData) +2 ==0"
+			decided := func(b *ssa.BasicBlock, k int) bool {
+				for _, ea := range edgeAtomsOf(fn, R, b) {
+					if ea.Atom.String() == latest || ea.Atom.Neg().String() == latest {
+						return true
+					}
+				}
+				return false
+			}
+			c.Guard(rule, fn, StoresTo(fn, "Replica", "activeDiskData"), "splice activeDiskData", nil,
+				Need{Desc: "latest-snapshot test made on the unspliced list", Edge: decided})
+			var ps []ssa.Instruction
+			for _, in := range StoresTo(fn, "Info", "Parent") {
+				ps = append(ps, in)
+			}
+			if len(ps) == 1 {
+				c.Guard(rule, fn, ps, "info.Parent = head's parent", func(in ssa.Instruction) bool {
+					s, ok := in.(*ssa.Store)
+					return ok && strings.HasSuffix(R.V(s.Addr), "$0.activeDiskData")
+				}, atom("removed disk was the latest snapshot", latest))
+				if v := R.V(ps[0].(*ssa.Store).Val); v != "$0.diskData[$0.info.Head].Parent" {
+					c.Bad(rule, FnName(fn)+" | info.Parent value", c.P.InstrPos(ps[0]), "info.Parent receives "+v, nil)
+				}
+			} else {
+				c.Bad(rule, FnName(fn)+" | info.Parent follows the removal of the latest snapshot", "", fmt.Sprintf("expected one store to info.Parent, found %d", len(ps)), nil)
+			}
+		}
 		if fn := c.Anchor(rule, fRep+"findDisk"); fn != nil {
 			var hits []ssa.Instruction
 			for _, r := range Returns(fn) {
@@ -946,4 +979,15 @@ func prepareActionsShape(c *Ctx, rule string, fn *ssa.Function, src string) {
 	} else {
 		c.Bad(rule, key, c.P.Pos(fn.Pos()), "emitted actions are "+j, nil)
 	}
+}
+
+// edgeAtomsOf: the atoms on the outgoing edges of block b.
+func edgeAtomsOf(fn *ssa.Function, R *Renderer, b *ssa.BasicBlock) []EdgeAtom {
+	var out []EdgeAtom
+	for _, ea := range allAtoms(fn, R) {
+		if ea.B == b {
+			out = append(out, ea)
+		}
+	}
+	return out
 }
